@@ -118,7 +118,7 @@ static int f_fe(const char *pre, const char *fld, secp256k1_fe *fe) {
     if (fld) snprintf(nm, sizeof nm, "%s.%s", pre, fld); else snprintf(nm, sizeof nm, "%s", pre);
     if (!f_find(nm, &v) || strlen(v) != 64) return 0;
     for (k = 0; k < 32; k++) b[k] = (unsigned char)(hexval(v[2*k]) * 16 + hexval(v[2*k+1]));
-    secp256k1_fe_set_b32_mod(fe, b); return 1;
+    secp256k1_fe_set_b32_mod(fe, b); secp256k1_fe_normalize_var(fe); return 1;      /* normalized, magnitude 1 (generators pass values < p) */
 }
 static int f_int(const char *pre, const char *fld, int *out) {
     char nm[64]; const char *v; snprintf(nm, sizeof nm, "%s.%s", pre, fld);
@@ -151,6 +151,20 @@ static int op_f_run(void) {
     if (!strcmp(f, "group.ge_set_ge_zinv")) { if (!f_ge("a", &ga) || !f_fe("zi", NULL, &fz)) return -1; secp256k1_ge_set_ge_zinv(&gr, &ga, &fz); f_out_ge(&gr); return 1; }
     if (!strcmp(f, "group.gej_eq_x_var")) { if (!f_gej("a", &ja) || !f_fe("x", NULL, &fz)) return -1; out_int(secp256k1_gej_eq_x_var(&fz, &ja)); return 1; }
     if (!strcmp(f, "group.ge_is_valid_var")) { if (!f_ge("a", &ga)) return -1; out_int(secp256k1_ge_is_valid_var(&ga)); return 1; }
+    if (!strcmp(f, "group.fe_sqrt")) { secp256k1_fe fa, fr; int rv; if (!f_fe("a", NULL, &fa)) return -1; rv = secp256k1_fe_sqrt(&fr, &fa); f_out_fe(&fr); out_int(rv); return 1; }
+    if (!strcmp(f, "group.fe_equal")) { secp256k1_fe fa, fb; if (!f_fe("a", NULL, &fa) || !f_fe("b", NULL, &fb)) return -1; out_int(secp256k1_fe_equal(&fa, &fb)); return 1; }
+    if (!strcmp(f, "group.ge_set_xquad")) { secp256k1_fe fx; int rv; if (!f_fe("x", NULL, &fx)) return -1; rv = secp256k1_ge_set_xquad(&gr, &fx); f_out_fe(&gr.x); f_out_fe(&gr.y); out_int(rv); return 1; }
+    if (!strcmp(f, "group.ge_set_xo_var")) { secp256k1_fe fx; int rv, odd; const char *v; if (!f_fe("x", NULL, &fx) || !f_find("odd", &v)) return -1; odd = (int)strtoul(v, NULL, 16); rv = secp256k1_ge_set_xo_var(&gr, &fx, odd); f_out_fe(&gr.x); f_out_fe(&gr.y); out_int(rv); return 1; }
+#ifdef ENABLE_MODULE_ELLSWIFT
+    if (!strcmp(f, "ellswift.ge_x_on_curve_var")) { secp256k1_fe fx; if (!f_fe("x", NULL, &fx)) return -1; out_int(secp256k1_ge_x_on_curve_var(&fx)); return 1; }
+    if (!strcmp(f, "ellswift.ge_x_frac_on_curve_var")) { secp256k1_fe fn, fd; if (!f_fe("xn", NULL, &fn) || !f_fe("xd", NULL, &fd)) return -1; out_int(secp256k1_ge_x_frac_on_curve_var(&fn, &fd)); return 1; }
+    if (!strcmp(f, "ellswift.xswiftec_frac_var")) { secp256k1_fe fu, ft, xn, xd; if (!f_fe("u", NULL, &fu) || !f_fe("t", NULL, &ft)) return -1; secp256k1_ellswift_xswiftec_frac_var(&xn, &xd, &fu, &ft); f_out_fe(&xn); f_out_fe(&xd); return 1; }
+    if (!strcmp(f, "ellswift.xswiftec_var")) { secp256k1_fe fu, ft, fx; if (!f_fe("u", NULL, &fu) || !f_fe("t", NULL, &ft)) return -1; secp256k1_ellswift_xswiftec_var(&fx, &fu, &ft); f_out_fe(&fx); return 1; }
+    if (!strcmp(f, "ellswift.swiftec_var")) { secp256k1_fe fu, ft; if (!f_fe("u", NULL, &fu) || !f_fe("t", NULL, &ft)) return -1; secp256k1_ellswift_swiftec_var(&gr, &fu, &ft); f_out_fe(&gr.x); f_out_fe(&gr.y); return 1; }
+    if (!strcmp(f, "ellswift.xswiftec_inv_var")) { secp256k1_fe fx, fu, ft; int rv, c; const char *v; if (!f_fe("x_in", NULL, &fx) || !f_fe("u_in", NULL, &fu) || !f_find("c", &v)) return -1; c = (int)strtoul(v, NULL, 16); secp256k1_fe_set_int(&ft, 0); rv = secp256k1_ellswift_xswiftec_inv_var(&ft, &fx, &fu, c); if (rv) f_out_fe(&ft); else out_str("-"); out_int(rv); return 1; }
+#endif
+    if (!strcmp(f, "ellswift.ge_set_gej")) { if (!f_gej("a", &ja) || ja.infinity) return -1; secp256k1_ge_set_gej(&gr, &ja); f_out_ge(&gr); return 1; }
+    if (!strcmp(f, "ellswift.ge_set_gej_var")) { if (!f_gej("a", &ja)) return -1; secp256k1_ge_set_gej_var(&gr, &ja); f_out_ge(&gr); return 1; }
     (void)ga; (void)jb;
     out_str("skip");
     return 1;
